@@ -17,6 +17,7 @@ REQUIRED_THEOREMS = [
     "Cv.C19.bootstrap_returns", "Cv.C19.shuffle_returns", "Cv.C19.shuffle_two_returns",
     "Cv.C19.bootstrap_none", "Cv.C19.shuffle_none", "Cv.C19.shuffle_two_none",
     "Cv.C19.idxDraw_eq_lemire", "Cv.C19.lemire_uniform", "Cv.C19.u64LessThan_accepts",
+    "Cv.C19.u64LessThan_first_accepted", "Cv.C19.u64LessThan_of_first_accepted",
     "Cv.C19.f64_range", "Cv.C19.u64LessThan_lt", "Cv.C19.i64InRange_range", "Cv.C19.u64LessThan_fuel_irrelevant",
     # whenever the call returns (termination of the rejection loop is not proved)
     "Cv.C19.bootstrap_spec_partial", "Cv.C19.shuffle_perm_partial", "Cv.C19.shuffle_two_pairs_partial",
@@ -38,8 +39,10 @@ NOT_PROVED = [
     "iff those draws return (…_isSome_iff, …_returns), and a non-returning call has a draw of its own run at which the loop "
     "ran out of fuel (…_none); fuel 64 is never exhausted in the correspondence runs, and runs on lengths 3 and 5 are "
     "evaluated in the kernel",
-    "equal likelihood: proved per draw as a counting statement (every drawn index is u64_less_than(n) at the run's state at "
-    "that draw, and each value has exactly floor(2^64/n) accepted raw 64-bit words); that wyrand's words are uniform and "
+    "equal likelihood: proved per draw as two exact facts (every drawn index is u64_less_than(n) at the run's state at that "
+    "draw and equals mulHi of the FIRST accepted word of the generator's stream from that state; each value has exactly "
+    "floor(2^64/n) accepted raw 64-bit words); the step from these to a uniform law for an ideal iid-uniform word source is the "
+    "standard rejection-sampling argument and is not formalised (no probability space), and that wyrand's words are uniform and "
     "independent is not a mathematical fact and is only searched (DKW band and boundary-cell bounds on bootstrap draws)",
     "only jackknife is regenerated from the Rust source; bootstrap, shuffle, shuffle_two, DiscreteUniform::sample and the alea "
     "functions are hand-written models tied by bit-exact differential execution (values and generator state)",
